@@ -2,9 +2,9 @@ package main
 
 import (
 	"fmt"
-	"regexp"
 	"go/token"
 	"go/types"
+	"regexp"
 	"sort"
 	"strings"
 
@@ -101,6 +101,7 @@ func (e *Engine) verifyFunc(f *ssa.Function, ct *Contract) *FnVC {
 			ce.fail("private: pointer expected")
 		} else {
 			fv.private = pv.T
+			fv.privName = ct.Private
 			fv.note("assumed: callees with unknown effects cannot reach memory owned by `" + ct.Private + "` (encapsulation)")
 		}
 	}
